@@ -1,15 +1,19 @@
 """C01 — incremental rendering: structural necessary conditions of the diffing protocol
 (render.rs TerminalRenderer::{new,clear,frame}, terminal.rs Terminal::run_render)."""
+import json
 import re
 from ..mir import call_matches, callee_name, op_local, op_const_int, place_str
-from ..flow import resolve_place, arg_place, origins, value_variants, ok_return_blocks, err_return_blocks, feasible_reach, expr
+from ..flow import resolve_place, arg_place, origins, value_variants, ok_return_blocks, err_return_blocks, feasible_reach, expr, place_expr
 
 CLAIM = {
     "text": "Static necessary conditions of the diffing protocol decided on MIR for every path of TerminalRenderer::{new,clear,frame} and "
             "Terminal::run_render: forced-clear damage marking and its survival until the diff, skip-needs-not-damaged in both passes, image "
             "erase/damage/ignore pairing, buffer swap epilogue, frame-drop and resize paths, face/cursor reconciliation before every "
             "emission. The screen-model equivalence over histories of frames is not decided.",
-    "technique": "MIR CFG/effect rules: must-pass-through, kill/liveness of the marks surface, edge-sensitive guard analysis, who-writes",
+    "technique": "MIR CFG/effect rules on bodies with private single-caller helpers expanded (prog.inlined): must-pass-through, kill/liveness of the marks "
+                 "surface, who-writes; guards are decided by a small path-sensitive evaluation of the loop bodies under an assumption about the examined cell "
+                 "(mark = Damaged / Ignored, new cell = wide character), so the idiom a test is written in (==, !=, matches!, match, hoisted flags, early continue, "
+                 "iterator adaptors) does not matter",
     "design_ref": "DESIGN.md §5 C01",
 }
 
@@ -43,14 +47,53 @@ def norm(body, bb):
 
 
 def bool_edges(body, call_bb, t):
-    """(true_target, false_target) of the switch that consumes a bool-returning call's result"""
-    nb = t["t"]
-    tt = body.blocks[nb]["term"]
-    if tt["k"] != "switch" or op_local(tt["d"]) != t["dest"]["l"]:
+    """(true_target, false_target, switch_block) of the branch that consumes a bool-returning call's result: the first switch reached from the
+    call's continuation along straight-line code whose discriminant is the result, a copy of it or its negation (`let same = a == b; if !same`)"""
+    if t["dest"]["p"]:
         return None
-    if tt["vals"] == ["0"]:
-        return (tt["otherwise"], tt["targets"][0], nb)
+    alias = {t["dest"]["l"]: True}
+    bb, seen = t["t"], set()
+    while bb is not None and bb >= 0 and bb not in seen:
+        seen.add(bb)
+        blk = body.blocks[bb]
+        for s in blk["stmts"]:
+            if s["k"] != "assign" or s["place"]["p"]:
+                continue
+            rv, l = s["rv"], s["place"]["l"]
+            src = None
+            if rv["k"] == "use" and rv["a"]["k"] in ("copy", "move") and not rv["a"]["place"]["p"]:
+                src = (rv["a"]["place"]["l"], True)
+            elif rv["k"] == "un" and rv["op"] == "Not" and rv["a"]["k"] in ("copy", "move") and not rv["a"]["place"]["p"]:
+                src = (rv["a"]["place"]["l"], False)
+            if src is not None and src[0] in alias:
+                alias[l] = alias[src[0]] == src[1]
+            else:
+                alias.pop(l, None)
+        tt = blk["term"]
+        if tt["k"] == "goto":
+            bb = tt["t"]
+            continue
+        if tt["k"] in ("call", "assert", "drop"):
+            # a hoisted flag (`let same = old == new; let damaged = ..; if same && !damaged`): other tests are evaluated in between
+            if tt["k"] == "call" and not tt["dest"]["p"]:
+                alias.pop(tt["dest"]["l"], None)
+            bb = tt["t"]
+            continue
+        if tt["k"] == "switch":
+            dl = op_local(tt["d"])
+            if dl in alias and tt["vals"] == ["0"]:
+                tr, fa = tt["otherwise"], tt["targets"][0]
+                return (tr, fa, bb) if alias[dl] else (fa, tr, bb)
+        return None
     return None
+
+
+def cmp_edges(body, call_bb, t):
+    """(equal_target, different_target, switch_block) for a PartialEq::eq / ::ne call"""
+    e = bool_edges(body, call_bb, t)
+    if e is None:
+        return None
+    return (e[1], e[0], e[2]) if (callee_name(t) or "").endswith("::ne") else e
 
 
 def fills(body, surf_regex):
@@ -109,6 +152,8 @@ def run(ctx):
     if not all([new, clear, frame, rr]):
         ctx.anchor("ENGINE", "TerminalRenderer::{new,clear,frame}/Terminal::run_render")
         return
+    # see through private single-caller helpers (extracted marking / erasing / painting helpers): rules below decide on the expanded bodies
+    new, clear, frame, rr = (prog.inlined(b.path) or b for b in (new, clear, frame, rr))
 
     # ---------------- R1 clear -----------------------------------------------------------------
     ctx.rule("R1-CLEAR", "clear(): Ok paths pass fill(marks, Damaged) and fill(back, Cell::default()); front is not written; image placements erased are those of back, before it is reset", floor=4)
@@ -126,9 +171,8 @@ def run(ctx):
                           sites=[clear.loc])
     # images on screen are the ones recorded in `back`: every ImageErase of clear() takes image and position from an iteration over back,
     # and the loop runs before back is reset
-    erases = [(bb, s_) for bb, si, s_ in clear.assigns() if s_["rv"]["k"] == "agg" and s_["rv"].get("variant") == "ImageErase"]
-    for bb, s_ in erases:
-        e = expr(clear, {"k": "copy", "place": s_["place"]})
+    erases = _erase_commands(prog, clear)
+    for bb, s_, e in erases:
         parts = e.split(", Option::Some(")
         from_back = len(parts) == 2 and all("Surface::iter(arg1.back)" in x and "arg1.front" not in x for x in parts)
         before_reset = bool(b_d) and not any(bb in cfg.reachable_from(r) for r in b_d)
@@ -149,60 +193,66 @@ def run(ctx):
 
     # ---------------- R2 new -------------------------------------------------------------------
     ctx.rule("R2-NEW", "new(term, clear): the mark stored in every cell is Damaged on the clear==true edge", floor=1)
-    nw = [(bb, t) for bb, t in new.calls() if call_matches(t, r"^surface::SurfaceOwned::<T>::new_with$")]
+    # what ends up in the `marks` field of the returned renderer, on the paths that are feasible when `clear` (arg 2) is true
     okn = False
     detail = {}
-    if len(nw) == 1:
-        bb, t = nw[0]
-        # closure aggregate
-        cl = None
-        for d in new.defs_of(op_local(t["args"][1])):
-            if d[1] != "term" and d[2]["k"] == "agg" and d[2]["ak"] == "closure":
-                cl = d[2]
-        if cl is not None and len(cl["fields"]) == 1:
-            cb = prog.body(cl["def"])
-            # closure must return its capture
-            ret_ok = False
+    feas = feasible_reach(new, 0, env={2: 1})
+    c = new.cfg()
+    mk = None
+    agg_bb = None
+    for bb, si, s_ in new.assigns():
+        rv = s_["rv"]
+        if rv["k"] == "agg" and rv["ak"] == "adt" and rv["adt"] == "render::TerminalRenderer" and "marks" in (rv.get("fnames") or []):
+            mk, agg_bb = op_local(rv["fields"][rv["fnames"].index("marks")]), bb
+    mk_defs = new.defs_of(mk) if mk is not None else []
+    for _ in range(8):       # the field is initialised from a local that was built earlier: follow whole-value moves
+        if len(mk_defs) == 1 and mk_defs[0][1] != "term" and mk_defs[0][2]["k"] == "use" and mk_defs[0][2]["a"]["k"] in ("copy", "move") and not mk_defs[0][2]["a"]["place"]["p"]:
+            mk = mk_defs[0][2]["a"]["place"]["l"]
+            mk_defs = new.defs_of(mk)
+    if feas is not None and len(mk_defs) == 1 and mk_defs[0][1] == "term":
+        bb, _, t = mk_defs[0]
+        if call_matches(t, r"^surface::SurfaceOwned::<T>::new_with$"):
+            # closure aggregate
+            cl = None
+            for d in new.defs_of(op_local(t["args"][1])):
+                if d[1] != "term" and d[2]["k"] == "agg" and d[2]["ak"] == "closure":
+                    cl = d[2]
+            cb = prog.body(cl["def"]) if cl is not None else None
             if cb is not None:
+                rvv = {v for v in value_variants(cb, {"k": "copy", "place": {"l": 0, "p": []}}) if isinstance(v, str)}
                 og = origins(cb, {"k": "copy", "place": {"l": 0, "p": []}})
-                ret_ok = any(o[0] == "arg" and o[1] == 1 for o in og) or any(o[0] == "place" and "(*_1)" in o[1] for o in og)
-            # captured: &mark ; mark's defs
-            cap = cl["fields"][0]
-            ml = None
-            for d in new.defs_of(op_local(cap)):
-                if d[1] != "term" and d[2]["k"] == "ref":
-                    ml = d[2]["place"]["l"]
-            if ml is None:
-                ml = op_local(cap)
-            defs = new.defs_of(ml)
-            # the switch on `clear` (_2)
-            sw = None
-            for i, tt in new.terms():
-                if tt["k"] == "switch" and origins(new, tt["d"]) == {("arg", 2)}:
-                    sw = (i, tt)
-            if sw and ret_ok:
-                i, tt = sw
-                true_t = tt["otherwise"]
-                false_t = tt["targets"][0]
-                c = new.cfg()
-                good = True
-                n_d = 0
-                for (dbb, si, rv) in defs:
-                    if si == "term" or rv["k"] != "agg":
-                        good = False
-                        continue
-                    v = "%s::%s" % (rv["adt"], rv["variant"])
-                    on_true = c.edge_dominates(i, true_t, dbb)
-                    on_false = c.edge_dominates(i, false_t, dbb)
-                    detail.setdefault("defs", []).append({"value": v, "on_clear_true_edge": on_true, "on_clear_false_edge": on_false})
-                    if on_true:
-                        n_d += 1
-                        if v != DAMAGED:
-                            good = False
-                    elif not on_false:
-                        if v != DAMAGED:
-                            good = False
-                okn = good and n_d >= 1
+                if rvv == {DAMAGED}:
+                    okn = True          # every cell gets Damaged whatever `clear` says
+                    detail["closure_returns"] = DAMAGED
+                elif len(cl["fields"]) == 1 and (any(o[0] == "arg" and o[1] == 1 for o in og) or any(o[0] == "place" and "(*_1)" in o[1] for o in og)):
+                    # the closure returns its capture: &mark ; mark's definitions that are feasible with clear == true must all be Damaged
+                    cap = cl["fields"][0]
+                    ml = None
+                    for d in new.defs_of(op_local(cap)):
+                        if d[1] != "term" and d[2]["k"] == "ref":
+                            ml = d[2]["place"]["l"]
+                    if ml is None:
+                        ml = op_local(cap)
+                    good, n_d = True, 0
+                    for (dbb, si, rv) in new.defs_of(ml):
+                        vs = None
+                        if si != "term" and rv["k"] == "agg":
+                            vs = {"%s::%s" % (rv["adt"], rv["variant"])}
+                        elif si != "term" and rv["k"] == "use":
+                            vs = {v for v in value_variants(new, rv["a"]) if isinstance(v, str)}
+                        feasible = dbb in feas
+                        detail.setdefault("defs", []).append({"value": sorted(vs) if vs else None, "feasible_when_clear_is_true": feasible})
+                        if feasible:
+                            n_d += 1
+                            if vs != {DAMAGED}:
+                                good = False
+                    okn = good and n_d >= 1
+        elif call_matches(t, r"^surface::SurfaceOwned::<T>::new$|Default>?::default$"):
+            # created with default marks, then filled: fill(marks, Damaged) on every clear==true path to the construction of the renderer
+            sites = [f["bb"] for f in fills(new, None) if f["recv"] == "_%d" % mk and f["vals"] == {DAMAGED} and f["name"] == "fill"]
+            infeasible = {x for x in range(len(new.blocks)) if x not in feas}
+            okn = bool(sites) and agg_bb is not None and c.must_pass(sites, exits=[agg_bb], start=bb, removed=infeasible)[0]
+            detail["filled_damaged_on_every_clear_path"] = okn
     ctx.instance("R2-NEW", detail or {"note": "shape not recognised"})
     if not okn:
         ctx.violation("R2-NEW", new.path, "clear-true-not-damaged",
@@ -246,32 +296,45 @@ def run(ctx):
         vals = value_variants(frame, s["rv"]["a"]) if s["rv"]["k"] == "use" else set()
         if s["rv"]["k"] == "agg":
             vals = {"%s::%s" % (s["rv"]["adt"], s["rv"]["variant"])}
-        # guarded by discriminant(*item) != Damaged: from the Damaged edge of a dominating switch on the item's
-        # discriminant the store is not feasibly reachable within the iteration
-        guarded = False
+        # guarded by `!= Damaged` (whatever the idiom: matches!, ==/!=, match, early continue): for a Damaged item the store is infeasible
+        # within the iteration
         inner = _inner_loop(loops_f, i)
-        for j, tt in frame.terms():
-            if tt["k"] != "switch" or not fcfg.dominates(j, i):
-                continue
-            dl = op_local(tt["d"])
-            for d in frame.defs_of(dl) if dl is not None else []:
-                if d[1] != "term" and d[2]["k"] == "discr" and d[2]["of"] == "render::CellMark" and d[2]["place"]["l"] == p["l"]:
-                    if "2" in tt["vals"]:
-                        dmg_t = tt["targets"][tt["vals"].index("2")]
-                        fr = feasible_reach(frame, dmg_t, stop={inner} if inner is not None else ())
-                        if fr is not None and i not in fr:
-                            guarded = True
+        fr = CellEval(frame, prog, mark=DAMAGED).reach(inner if inner is not None else 0, stop={inner} if inner is not None else ())
+        guarded = fr is not None and i not in fr
         ctx.instance("R1b-MARKS-LIVE", {"per_cell_store_line": s["line"], "value": sorted(map(str, vals)), "guarded_by_not_damaged": guarded})
         if not guarded and DAMAGED not in vals:
             ctx.violation("R1b-MARKS-LIVE", frame.path, "per-cell-reset-unguarded",
                           "frame() resets marks cell by cell without excluding Damaged cells before the diff", sites=["%s:%d" % (frame.file, s["line"])])
+
+    for cb in prog.closures_of(frame):
+        params = [l for l in range(1, cb.arg_count + 1) if _T_MARK.match(cb.local_ty(l) or "") and "&mut" in cb.local_ty(l)]
+        if not params:
+            continue
+        cev = CellEval(cb, prog, mark=DAMAGED, init={l: "M" for l in params})
+        cfr = cev.reach(0)
+        for i, si, s in cb.assigns():
+            p = s["place"]
+            if not (p["p"] and p["p"][-1]["k"] == "deref" and _T_MARK.match(cb.local_ty(p["l"]) or "")):
+                continue
+            n_st += 1
+            vals = value_variants(cb, s["rv"]["a"]) if s["rv"]["k"] == "use" else set()
+            if s["rv"]["k"] == "agg":
+                vals = {"%s::%s" % (s["rv"]["adt"], s["rv"]["variant"])}
+            guarded = cfr is not None and i not in cfr
+            if not guarded:
+                # the items may have been filtered before they get here: iter_mut().filter(|m| **m != Damaged).for_each(this closure)
+                guarded = _filtered_not_damaged(prog, frame, cb)
+            ctx.instance("R1b-MARKS-LIVE", {"per_cell_store_in": cb.path.split("::")[-1], "line": s["line"], "value": sorted(map(str, vals)), "guarded_by_not_damaged": guarded})
+            if not guarded and DAMAGED not in vals:
+                ctx.violation("R1b-MARKS-LIVE", frame.path, "per-cell-reset-unguarded",
+                              "frame() resets marks cell by cell without excluding Damaged cells before the diff", sites=["%s:%d" % (frame.file, s["line"])])
 
     # ---------------- R3 skip needs not damaged --------------------------------------------------
     ctx.rule("R3-SKIP", "each `old == new` skip test treats Damaged cells exactly like changed cells (first and second pass)", floor=2)
     loops = fcfg.loops()
     eqs = []
     for bb, t in frame.calls():
-        if call_matches(t, r"PartialEq.*::eq$") and all(re.search(r"render::Cell$", x) for x in t["arg_tys"]):
+        if call_matches(t, r"PartialEq.*::(eq|ne)$") and all(re.search(r"render::Cell$", x) for x in t["arg_tys"]):
             # exclude comparisons of two cells of the front buffer (run-length scan)
             srcs = []
             for a in t["args"]:
@@ -286,49 +349,55 @@ def run(ctx):
                 srcs.append(s)
             both_front = all(s and all(x == "(*_1).front" for x in s) for s in srcs)
             eqs.append((bb, t, both_front, srcs))
-    dmg_tests = []
-    for bb, t in frame.calls():
-        if call_matches(t, r"PartialEq.*::(eq|ne)$") and any(DAMAGED in value_variants(frame, a) for a in t["args"]):
-            e = bool_edges(frame, bb, t)
-            if e:
-                is_ne = callee_name(t).endswith("::ne")
-                # edge taken when the cell IS damaged / is NOT damaged
-                damaged_t = e[1] if is_ne else e[0]
-                notdmg_t = e[0] if is_ne else e[1]
-                dmg_tests.append({"bb": bb, "sw": e[2], "damaged": damaged_t, "not_damaged": notdmg_t, "line": t["line"]})
     n_inst = 0
+    changed_cont = {}       # block of a skip comparison -> blocks where a changed cell continues
+    errs = err_return_blocks(frame)
     for (bb, t, both_front, srcs) in eqs:
         if both_front:
             ctx.note("cell equality at line %d compares two front-buffer cells (run-length scan) - not a skip test" % t["line"])
             continue
         n_inst += 1
-        e = bool_edges(frame, bb, t)
+        e = cmp_edges(frame, bb, t)
         if not e:
-            ctx.anchor("R3-SKIP", "eq-switch", "result of the cell comparison at line %d is not branched on directly" % t["line"])
+            ctx.anchor("R3-SKIP", "eq-switch", "result of the cell comparison at line %d is not branched on" % t["line"])
             continue
         eq_t, diff_t, swb = e
-        diff_n = norm(frame, diff_t)
-        # innermost loop containing bb
-        inner = None
-        for h, body in loops.items():
-            if bb in body and (inner is None or len(body) < len(loops[inner])):
-                inner = h
-        ok_any = False
+        inner = _inner_loop(loops, bb)
+        # Assume the mark of the examined cell is Damaged (every read of `marks` that dominates the comparison, or is evaluated as part of the
+        # same condition, yields Damaged).  C = where a changed cell continues (the different-outcome of the comparison, followed through pure
+        # tests).  Then every path of the iteration that is feasible under the assumption must pass C: a Damaged cell is handled exactly like a
+        # changed one, whatever `old == new` says (in whichever order / idiom the two tests are written).
+        ev = CellEval(frame, prog, mark=DAMAGED, allowed=lambda x, bb=bb: fcfg.dominates(x, bb) or x == bb)
+        head = inner if inner is not None else 0
+        fr = ev.reach(head, stop={inner} if inner is not None else ())
         why = []
-        for d in dmg_tests:
-            if inner is not None and d["bb"] not in loops[inner]:
-                continue
-            # damaged edge must join the differ continuation
-            if norm(frame, d["damaged"]) != diff_n:
-                why.append("damage test @%d: damaged edge goes to bb%d, changed-cell continuation is bb%d" % (d["line"], norm(frame, d["damaged"]), diff_n))
-                continue
-            # remove the not-damaged edge; then any path taking the equal edge must reach diff_n before the loop head / exits
-            removed_edge = (d["sw"], d["not_damaged"])
-            if not _path_equal_skips(fcfg, frame, inner, swb, eq_t, diff_n, removed_edge):
-                ok_any = True
+        ok_any = False
+        if fr is None:
+            why.append("path enumeration gave up")
+        else:
+            ev.allowed = lambda x: True
+            conts = {ev.thread(diff_t, env) for env in (fr.get(swb) or [{}])} | {ev.thread(diff_t, {})}
+            changed_cont[bb] = sorted(conts)
+            # the decision starts at the first read of the cell's mark that belongs to it, or at the comparison itself
+            region = {x for x in _mark_read_blocks(frame) if fcfg.dominates(x, bb) or x in _straight_after(frame, fcfg, bb, swb)} | {bb}
+            if inner is not None:
+                region = {x for x in region if x in loops[inner]}
+            entries = [x for x in region if not any(y != x and fcfg.dominates(y, x) for y in region)]
+            ev.allowed = lambda x, region=region: x in region
+            fr2 = ev.reach(head, stop={inner} if inner is not None else ())
+            esc = []
+            for en in entries:
+                for env in ((fr2 or {}).get(en) or []):
+                    r_ = ev.escapes(en, conts, head=inner, loop_body=loops[inner] if inner is not None else None, removed=_err_region(fcfg, frame, errs), env=env)
+                    esc = None if (r_ is None or esc is None) else esc + r_
+            if fr2 is None or esc is None:
+                why.append("path enumeration gave up")
+            elif esc:
+                why.append("a Damaged cell can finish the iteration without reaching the changed-cell continuation bb%s (%s bb%d)" % (sorted(conts), esc[0][0], esc[0][1]))
             else:
-                why.append("damage test @%d does not cover the equal edge" % d["line"])
-        ctx.instance("R3-SKIP", {"eq_test_line": t["line"], "equal_edge": eq_t, "changed_edge": diff_n, "covered_by_damage_test": ok_any})
+                ok_any = True
+                why.append("every iteration of a Damaged cell passes the changed-cell continuation bb%s" % sorted(conts))
+        ctx.instance("R3-SKIP", {"eq_test_line": t["line"], "equal_edge": eq_t, "changed_edge": norm(frame, diff_t), "covered_by_damage_test": ok_any, "how": "; ".join(why)[:160]})
         if not ok_any:
             ctx.violation("R3-SKIP", frame.path, "skip-%d" % n_inst,
                           "an unchanged cell is skipped without checking that it is not Damaged (%s)" % ("; ".join(why) or "no comparison with CellMark::Damaged in the same loop"),
@@ -352,7 +421,10 @@ def run(ctx):
         # after the erase (success), the damaged fill must follow before the iteration ends
         inner = _inner_loop(loops, ebb)
         exits = ([inner] if inner is not None else []) + list(fcfg.returns)
-        ok, wit = fcfg.must_pass([f["bb"] for f in dmg_fill], start=ebb, exits=exits, removed=_err_region(fcfg, frame, errs))
+        # (path-sensitive for Result values, so that an extracted helper `erase(..)?` that returns the error of execute(..)? is understood)
+        esc = CellEval(frame, prog).escapes(ebb, {f["bb"] for f in dmg_fill}, head=inner, loop_body=loops[inner] if inner is not None else None,
+                                            removed=_err_region(fcfg, frame, errs))
+        ok, wit = (esc == []), esc
         ctx.instance("R4-IMAGES", {"erase_line": et["line"], "damage_fill_lines": [f["t"]["line"] for f in dmg_fill], "follows": ok})
         if not ok:
             ctx.violation("R4-IMAGES", frame.path, "erase-without-damage", "ImageErase is not followed by marking the image area Damaged (path %s)" % wit, sites=["%s:%d" % (frame.file, et["line"])])
@@ -370,10 +442,9 @@ def run(ctx):
         # and must be evaluated on every changed-cell path (it post-dominates the changed continuation of the first-pass eq test)
         first_eq = [x for x in eqs if not x[2] and _inner_loop(loops, x[0]) == inner]
         if first_eq:
-            e = bool_edges(frame, first_eq[0][0], first_eq[0][1])
-            diff_n = norm(frame, e[1])
+            starts = changed_cont.get(first_eq[0][0]) or []
             sw = _guarding_kind_switch(frame, fcfg, ebb)
-            okg = sw is not None and fcfg.must_pass([sw], start=diff_n, exits=exits)[0]
+            okg = sw is not None and bool(starts) and all(fcfg.must_pass([sw], start=c_, exits=exits)[0] for c_ in starts)
             ctx.instance("R4-IMAGES", {"kind_switch_block": sw, "on_every_changed_path": okg})
             if not okg:
                 ctx.violation("R4-IMAGES", frame.path, "erase-not-on-changed-path", "a changed cell can bypass the old-image test (erase + damage)", sites=["%s:%d" % (frame.file, et["line"])])
@@ -385,7 +456,9 @@ def run(ctx):
         pbb, pt = push[0]
         inner = _inner_loop(loops, pbb)
         exits = ([inner] if inner is not None else []) + list(fcfg.returns)
-        ok, wit = fcfg.must_pass([f["bb"] for f in ign_fill], start=pbb, exits=exits)
+        esc = CellEval(frame, prog).escapes(pbb, {f["bb"] for f in ign_fill}, head=inner, loop_body=loops[inner] if inner is not None else None,
+                                            removed=_err_region(fcfg, frame, errs))
+        ok, wit = (esc == []), esc
         ctx.instance("R4-IMAGES", {"push_line": pt["line"], "ignore_fill_lines": [f["t"]["line"] for f in ign_fill], "follows": ok})
         if not ok:
             ctx.violation("R4-IMAGES", frame.path, "push-without-ignore", "a queued image's area is not marked Ignored (characters would be painted over/under it)", sites=["%s:%d" % (frame.file, pt["line"])])
@@ -401,49 +474,63 @@ def run(ctx):
     ctx.rule("R9-WIDE", "second pass: a column is advanced by the constant 1 only where the new cell is known not to be a multi-column character (not a Char, width 0, "
                         "or under an image), so an unchanged wide character hides its trailing cells exactly as a repainted one does; first pass: a changed cell whose "
                         "old content was a wide character damages the cells that character covered", floor=3)
-    # (a) every `pos.col += 1`
-    incs = []
-    walkers = {l for l, nm in frame.varnames.items() if nm == "pos" and frame.local_ty(l) == "terminal::Position"}
-    adds = {}     # tuple local -> assign statement of `pos.col + 1`
+    # (a) every advance of the column walker `W.col = W.col + X`.  The walker is the Position whose column is compared with front.width() by
+    # the loop condition (any name).  Assume the new cell is a character wider than one column that is not under an image (mark Empty or
+    # Damaged): on every path that is feasible under that assumption the step X must not be the constant 1 (or 0).
+    pos_locals = {l for l in range(len(frame.locals)) if frame.local_ty(l) == "terminal::Position"}
+    walkers = set()
     for bb_, si_, s_ in frame.assigns():
         rv_ = s_["rv"]
-        if rv_["k"] == "bin" and rv_["op"] in ("AddWithOverflow", "Add") and expr(frame, rv_["b"]) == "1" and rv_["a"].get("k") in ("copy", "move") \
-                and rv_["a"]["place"]["l"] in walkers and [e_.get("name") for e_ in rv_["a"]["place"]["p"]] == ["col"]:
-            adds[s_["place"]["l"]] = (bb_, s_)
+        if rv_["k"] == "bin" and rv_["op"] in ("Lt", "Gt", "Le", "Ge", "Ne"):
+            for x_, y_ in ((rv_["a"], rv_["b"]), (rv_["b"], rv_["a"])):
+                if x_.get("k") in ("copy", "move") and x_["place"]["l"] in pos_locals and [e_.get("name") for e_ in x_["place"]["p"]] == ["col"] \
+                        and re.search(r"(Surface::width\(arg1\.front\)|Surface::shape\(arg1\.front\)\.width|arg1\.size\.cells\.width)$", expr(frame, y_)):
+                    walkers.add(x_["place"]["l"])
+    if not walkers:
+        walkers = pos_locals
+    adds = {}     # tuple local -> (block, statement index, assign statement of `W.col + X`)
+    for bb_, si_, s_ in frame.assigns():
+        rv_ = s_["rv"]
+        if rv_["k"] == "bin" and rv_["op"] in ("AddWithOverflow", "Add"):
+            for x_, y_ in ((rv_["a"], rv_["b"]), (rv_["b"], rv_["a"])):
+                if x_.get("k") in ("copy", "move") and x_["place"]["l"] in walkers and [e_.get("name") for e_ in x_["place"]["p"]] == ["col"]:
+                    adds[s_["place"]["l"]] = (bb_, si_, s_, y_)
+                    break
+    incs = []
     for bb_, si_, s_ in frame.assigns():
         rv_ = s_["rv"]
         if s_["place"]["l"] in walkers and [e_.get("name") for e_ in s_["place"]["p"]] == ["col"] and rv_["k"] == "use" and rv_["a"].get("k") in ("copy", "move") \
                 and rv_["a"]["place"]["l"] in adds:
-            incs.append((bb_, adds[rv_["a"]["place"]["l"]][1]))
+            incs.append(adds[rv_["a"]["place"]["l"]])
     if not incs:
-        ctx.anchor("R9-WIDE", "second-pass/col-increment", "no `pos.col += 1` found in frame(): the column walk is not understood")
-    for bb_, s_ in incs:
-        why = None
-        for x in range(len(frame.blocks)):
-            t_ = frame.blocks[x]["term"]
-            if t_["k"] != "switch" or not fcfg.dominates(x, bb_) or x == bb_:
+        ctx.anchor("R9-WIDE", "second-pass/col-increment", "no `pos.col += ..` found in frame(): the column walk is not understood")
+    wide_reach = {}
+    for bb_, si_, s_, step in incs:
+        inner = _inner_loop(loops, bb_)
+        bad, n_feasible = None, 0
+        for mk in (EMPTY, DAMAGED):
+            key = (inner, mk)
+            if key not in wide_reach:
+                wev = CellEval(frame, prog, mark=mk, wide=True)
+                wide_reach[key] = (wev, wev.reach(inner if inner is not None else 0, stop={inner} if inner is not None else ()))
+            wev, fr = wide_reach[key]
+            if fr is None:
+                bad = bad or "path enumeration gave up"
                 continue
-            succs = [(v, tg) for v, tg in zip(t_["vals"], t_["targets"])] + [(None, t_["otherwise"])]
-            taken = [(v, tg) for v, tg in succs if fcfg.edge_dominates(x, tg, bb_)]
-            if len(taken) != 1:
-                continue
-            v, tg = taken[0]
-            e_ = expr(frame, t_["d"])
-            if re.fullmatch(r"discr\(.*\.kind\)", e_) and "arg1.front" in e_:
-                # Char is variant 0 of CellKind: any other taken value / the otherwise edge of a switch listing 0 means "not a character"
-                if (v is not None and v != "0") or (v is None and "0" in t_["vals"]):
-                    why = "new cell is not a character"
-            if re.search(r"UnicodeWidthChar::width\(", e_) and re.match(r"^Eq\(.*, 0\)$|^Eq\(0, ", e_) and v != "0":
-                why = why or "character of width 0"
-            if re.search(r"\.marks\b", e_) and re.search(r"discr\(|Eq\(|PartialEq", e_):
-                # a test of the mark: accepted when the taken side is `== Ignored`
-                vv = value_variants(frame, t_["d"]) if False else None
-                if re.search(r"Ignored", e_) and v != "0":
-                    why = why or "cell is under an image (Ignored)"
-        ctx.instance("R9-WIDE", {"increment_by_one_line": s_["line"], "justified_by": why})
+            for env in fr.get(bb_, []):
+                env = dict(env)
+                for s2 in frame.blocks[bb_]["stmts"][:si_]:
+                    if s2["k"] == "assign":
+                        wev._assign(env, bb_, s2)
+                v = wev._val(env, step)
+                n_feasible += 1
+                if isinstance(v, tuple) and v[1] <= 1:
+                    bad = bad or "advances by %d" % v[1]
+        why = None if bad else ("not reached for a wide character outside an image" if n_feasible == 0 else "step is not the constant 1 for a wide character")
+        ctx.instance("R9-WIDE", {"column_advance_line": s_["line"], "step": expr(frame, step)[:80], "justified_by": why})
         if why is None:
-            ctx.violation("R9-WIDE", frame.path, "skip-advance", "a column is skipped with `pos.col += 1` although the cell may hold an unchanged wide character: its trailing cell is then examined "
-                          "on its own and painted over the character's right half (from-scratch painting skips it), e.g. frames [中 x a b] then [中 y a b]", sites=["%s:%d" % (frame.file, s_["line"])])
+            ctx.violation("R9-WIDE", frame.path, "skip-advance", "a column is skipped with `pos.col += 1` although the cell may hold an unchanged wide character (%s): its trailing cell is then examined "
+                          "on its own and painted over the character's right half (from-scratch painting skips it), e.g. frames [中 x a b] then [中 y a b]" % bad, sites=["%s:%d" % (frame.file, s_["line"])])
     # (b) old wide character -> damage its footprint
     wide_dmg = []
     for f in dmg_fill:
@@ -464,7 +551,7 @@ def run(ctx):
     # ---------------- R5 epilogue + run_render ----------------------------------------------------
     ctx.rule("R5-EPILOGUE", "frame Ok path: swap(front, back) then front.clear(); run_render: frames_drop -> clear, Resize -> clear + new(true), drawn front reaches frame", floor=5)
     swp = [(bb, t) for bb, t in frame.calls() if call_matches(t, r"^std::mem::swap$") and {arg_place(frame, t, 0), arg_place(frame, t, 1)} == {"(*_1).front", "(*_1).back"}]
-    fclr = [f for f in ffl if f["recv"] == "(*_1).front" and f["name"] == "clear"]
+    fclr = [f for f in ffl if f["recv"] == "(*_1).front" and (f["name"] == "clear" or any(o[0] == "call" and re.search(r"Default>?::default$", o[2]) for o in f["orig"]))]
     oks = ok_return_blocks(frame)
     ok1 = bool(swp) and fcfg.must_pass([b for b, _ in swp], exits=oks)[0]
     ok2 = bool(swp) and bool(fclr) and fcfg.must_pass([f["bb"] for f in fclr], start=swp[0][0], exits=oks)[0]
@@ -481,12 +568,12 @@ def run(ctx):
         for bb, t in late:
             ctx.violation("R5-EPILOGUE", frame.path, "paint-after-swap", "terminal commands are issued after the buffers were swapped", sites=["%s:%d" % (frame.file, t["line"])])
     rcfg = rr.cfg()
-    fd = [(bb, t) for bb, t in rr.calls() if call_matches(t, r"^terminal::Terminal::frames_drop$")]
-    cl = [(bb, t) for bb, t in rr.calls() if call_matches(t, r"^render::TerminalRenderer::clear$")]
-    nw_t = [(bb, t) for bb, t in rr.calls() if call_matches(t, r"^render::TerminalRenderer::new$") and op_const_int(t["args"][1]) == 1]
-    nw_all = [(bb, t) for bb, t in rr.calls() if call_matches(t, r"^render::TerminalRenderer::new$")]
-    fr = [(bb, t) for bb, t in rr.calls() if call_matches(t, r"^render::TerminalRenderer::frame$")]
-    hd = [(bb, t) for bb, t in rr.calls() if call_matches(t, r"FnMut::call_mut$")]
+    rr_calls = list(_calls_x(rr))
+    fd = [(bb, t) for bb, t in rr_calls if call_matches(t, r"^terminal::Terminal::frames_drop$")]
+    cl = [(bb, t) for bb, t in rr_calls if call_matches(t, r"^render::TerminalRenderer::clear$")]
+    nw_all = [(bb, t) for bb, t in rr_calls if call_matches(t, r"^render::TerminalRenderer::new$")]
+    fr = [(bb, t) for bb, t in rr_calls if call_matches(t, r"^render::TerminalRenderer::frame$")]
+    hd = [(bb, t) for bb, t in rr_calls if call_matches(t, r"FnMut::call_mut$")]
     rerrs = err_return_blocks(rr)
     if len(fd) != 1 or not cl or not fr or len(hd) != 1:
         ctx.anchor("R5-EPILOGUE", "run_render/shape")
@@ -501,7 +588,7 @@ def run(ctx):
         # renderer re-creation in the loop must pass clear=true and be preceded by clear()
         loopsr = rcfg.loops()
         inloop_new = [(bb, t) for bb, t in nw_all if any(bb in body for body in loopsr.values())]
-        ok4 = bool(inloop_new) and all(op_const_int(t["args"][1]) == 1 for bb, t in inloop_new)
+        ok4 = bool(inloop_new) and all(len(t["args"]) > 1 and expr(rr, t["args"][1]) == "1" for bb, t in inloop_new)
         ok5 = all(any(rcfg.dominates(cb, bb) and bb in rcfg.reachable_from(cb) and _inner_loop(loopsr, cb) is not None for cb, _ in cl) for bb, t in inloop_new)
         ctx.instance("R5-EPILOGUE", {"recreated_with_clear_true": ok4, "old_renderer_cleared_first": ok5})
         if not ok4:
@@ -512,13 +599,13 @@ def run(ctx):
         front_writers = set()
         for b in prog.bodies:
             if b.impl_self == "render::TerminalRenderer" and b.kind == "AssocFn" and b.path != frame.path:
-                for f in fills(b, None):
+                for f in fills(prog.inlined(b.path) or b, None):
                     if (f["recv"] or "").startswith("(*_1).front"):
                         front_writers.add(b.path)
         bad = []
         region = rcfg.reachable_from(hd[0][0])
         to_frame = rcfg.reaches(main_frames)
-        for bb, t in rr.calls():
+        for bb, t in rr_calls:
             if bb in region and bb in to_frame and bb != hd[0][0] and callee_name(t) in front_writers:
                 bad.append((bb, t))
         ctx.instance("R5-EPILOGUE", {"front_writers": sorted(front_writers), "calls_between_handler_and_frame": len(bad)})
@@ -529,8 +616,8 @@ def run(ctx):
     # ---------------- R6 face/cursor reconciliation ------------------------------------------------
     ctx.rule("R6-RECONCILE", "second pass: every Char/EraseChars emission is preceded in its iteration by the face and cursor tests", floor=3)
     paints = [(bb, t, v) for bb, t, v in ex if v & {"Char", "EraseChars"}]
-    face_t = [bb for bb, t in frame.calls() if call_matches(t, r"PartialEq.*::ne$") and all("face::Face" in x for x in t["arg_tys"])]
-    cur_t = [bb for bb, t in frame.calls() if call_matches(t, r"PartialEq.*::ne$") and all("terminal::Position" in x for x in t["arg_tys"])]
+    face_t = [bb for bb, t in frame.calls() if call_matches(t, r"PartialEq.*::(eq|ne)$") and all("face::Face" in x for x in t["arg_tys"])]
+    cur_t = [bb for bb, t in frame.calls() if call_matches(t, r"PartialEq.*::(eq|ne)$") and all("terminal::Position" in x for x in t["arg_tys"])]
     for bb, t, v in paints:
         inner = None
         # the cell loop = smallest loop containing both the paint and the face test
@@ -558,9 +645,9 @@ def run(ctx):
     for tests, cmdname in ((face_t, "Face"), (cur_t, "CursorTo")):
         for tb in tests:
             t = frame.blocks[tb]["term"]
-            e = bool_edges(frame, tb, t)
+            e = cmp_edges(frame, tb, t)      # (equal, different, switch)
             cmds = [b for b, t2, v2 in ex if cmdname in v2]
-            ok = bool(e) and fcfg.must_pass(cmds, start=e[0], exits=[norm(frame, e[1])] + list(fcfg.returns), removed=_err_region(fcfg, frame, errs))[0]
+            ok = bool(e) and fcfg.must_pass(cmds, start=e[1], exits=[norm(frame, e[0])] + list(fcfg.returns), removed=_err_region(fcfg, frame, errs))[0]
             ctx.instance("R6-RECONCILE", {"test_line": t["line"], "leads_to": cmdname, "ok": ok})
             if not ok:
                 ctx.violation("R6-RECONCILE", frame.path, "test-without-%s" % cmdname, "the %s difference test does not lead to emitting %s" % (cmdname, cmdname), sites=["%s:%d" % (frame.file, t["line"])])
@@ -568,29 +655,27 @@ def run(ctx):
 
     # ---------------- R7 erase/space runs never swallow Ignored cells ------------------------------------------
     ctx.rule("R7-RUN", "second pass run-length scan: a cell is added to a blank run only if its mark was compared with Ignored", floor=1)
-    ign_tests = []
-    for bb, t in frame.calls():
-        if call_matches(t, r"PartialEq.*::(eq|ne)$") and any(IGNORED in value_variants(frame, a) for a in t["args"]):
-            e = bool_edges(frame, bb, t)
-            if e:
-                is_ne = callee_name(t).endswith("::ne")
-                ign_tests.append({"bb": bb, "sw": e[2], "not_ignored": e[0] if is_ne else e[1], "line": t["line"]})
     n_run = 0
     for (bb, t, both_front, srcs) in eqs:
         if not both_front:
             continue
         n_run += 1
         inner = _inner_loop(loops, bb)
-        e = bool_edges(frame, bb, t)
+        e = cmp_edges(frame, bb, t)
         incs = []
         for i2, si2, s2 in frame.assigns():
-            if inner is not None and i2 in loops[inner] and s2["rv"]["k"] == "bin" and s2["rv"]["op"] == "AddWithOverflow" and op_const_int(s2["rv"]["b"]) == 1:
+            if inner is not None and i2 in loops[inner] and s2["rv"]["k"] == "bin" and s2["rv"]["op"] in ("AddWithOverflow", "Add") \
+                    and "1" in (expr(frame, s2["rv"]["a"]), expr(frame, s2["rv"]["b"])):
                 incs.append((i2, s2))
         ok = bool(e) and bool(incs)
         why = "run counter increment not found"
+        # assume the mark of the cell being scanned is Ignored (reads of `marks` inside the scan loop): the counter must not be incremented
+        fr = None
+        if inner is not None:
+            fr = CellEval(frame, prog, mark=IGNORED, allowed=lambda x, inner=inner: x in loops[inner]).reach(inner, stop={inner})
         for i2, s2 in incs:
-            g1 = fcfg.edge_dominates(e[2], e[0], i2)
-            g2 = any(fcfg.edge_dominates(it["sw"], it["not_ignored"], i2) for it in ign_tests if inner is None or it["bb"] in loops[inner])
+            g1 = bool(e) and fcfg.edge_dominates(e[2], e[0], i2)
+            g2 = fr is not None and i2 not in fr
             if not (g1 and g2):
                 ok = False
                 why = "the run counter is incremented (line %d) without %s" % (s2["line"], "the equal-cell test" if not g1 else "a `mark != Ignored` test of the next cell")
@@ -627,8 +712,402 @@ def run(ctx):
                           "%s::eq does not compare field(s) %s as a whole: two different cells can compare equal, the renderer then skips them and the terminal keeps the old content" % (ty, missing),
                           sites=[b.loc])
 
-def _reaches_without(cfg, start, target, removed_block):
-    return target in cfg.reachable_from(start, removed={removed_block})
+def _calls_x(body):
+    """call sites of a (possibly inlined) body: the real call terminators plus the call sites `prog.inlined` expanded in place
+    (a `goto` carrying `inl_call`; the arguments are the `inl_arg` assignments the inliner appended to that block)"""
+    for bb, t in body.calls():
+        yield bb, t
+    for bb, blk in enumerate(body.blocks):
+        t = blk["term"]
+        if t["k"] == "goto" and t.get("inl_call") and not blk["cleanup"]:
+            args = [s_["rv"]["a"] for s_ in blk["stmts"] if s_.get("inl_arg") == t["inl_call"]]
+            yield bb, {"k": "call", "fn": {"path": t["inl_call"], "resolved": t["inl_call"], "local": True}, "args": args,
+                       "line": t.get("line", 0), "t": t["t"], "inl": True}
+
+
+# ---- path-sensitive reading of the diff loops under an assumption about the cell being examined ---------------------------------
+_T_MARK = re.compile(r"^(&(mut )?)*render::CellMark$")
+_T_OMARK = re.compile(r"^(&(mut )?)*std::option::Option<(&(mut )?)*render::CellMark>$")
+_T_MARKS = re.compile(r"^&(mut )?\[render::CellMark\]$")
+_PURE_TESTS = r"PartialEq.*::(eq|ne)$|^surface::Surface::(get|data|shape|width|height)$|Surface>::(get|data|shape|width|height)$|^surface::Shape::offset$|" \
+              r"Option::<T>::(copied|cloned|unwrap_or|unwrap_or_default|is_some|is_none|as_ref|as_deref)$|Option::<&T>::(copied|cloned)$|Option::<&mut T>::(copied|cloned)$"
+
+
+class CellEval:
+    """Walks a body with a small environment of facts implied by an assumption about the cell under examination:
+       mark = <variant of CellMark>        every value read from the marks surface at an allowed site is that variant
+       wide = True                         the new (front-buffer) cell is a character whose width is > 1
+    Environment values: ('c', n) known integer/bool, 'M' (the mark, or a reference to it), 'OM' (Some(&mark) / Some(mark)), 'W' (the width).
+    Branches whose discriminant is known are followed on the matching edge only (like sa.flow.feasible_reach, which knows constants only)."""
+
+    def __init__(self, body, prog, mark=None, wide=False, allowed=None, init=None):
+        self.b, self.prog, self.mark, self.wide = body, prog, mark, wide
+        self.allowed = allowed or (lambda bb: True)
+        self.init = dict(init or {})
+        ev = prog.enum_variants("render::CellMark") or []
+        self.mark_idx = {"render::CellMark::" + n: i if d is None else d for i, (n, d) in enumerate(ev)}
+        self._idx_cache = {}
+
+    # -- values --------------------------------------------------------------------------------------------
+    def _val(self, env, op):
+        if op["k"] == "const":
+            c = op["c"]
+            return ("c", int(c["int"])) if "int" in c else None
+        p = op["place"]
+        return self._place_val(env, p)
+
+    def _place_val(self, env, p):
+        v = env.get(p["l"])
+        proj = [e for e in p["p"] if e["k"] != "deref"]
+        if not proj:
+            return v
+        if v == "OM" and len(proj) == 2 and proj[0]["k"] == "downcast" and proj[0]["variant"] == "Some" and proj[1]["k"] == "field":
+            return "M"
+        if self.mark is not None and any(e["k"] == "index" for e in proj) and _T_MARKS.match(self.b.local_ty(p["l"]) or ""):
+            return "M"
+        return None
+
+    def _variants(self, op):
+        vs = value_variants(self.b, op)
+        return {v for v in vs if isinstance(v, str)}
+
+    def _cmp(self, env, t):
+        """value of PartialEq::eq(a, b) when one side is the assumed mark and the other a constant"""
+        a, b_ = t["args"][0], t["args"][1]
+        va, vb = self._val(env, a), self._val(env, b_)
+        if va in ("M", "OM") and vb in ("M", "OM"):
+            return None
+        if vb in ("M", "OM"):
+            a, b_, va, vb = b_, a, vb, va
+        if va not in ("M", "OM") or self.mark is None:
+            return None
+        vs = self._variants(b_)
+        marks = [v for v in vs if v.startswith("render::CellMark::")]
+        if va == "OM":
+            if any(v.endswith("Option::None") for v in vs) and not marks:
+                return 0
+            if not any(v.endswith("Option::Some") for v in vs):
+                return None
+        if len(marks) != 1:
+            return None
+        return 1 if marks[0] == self.mark else 0
+
+    def _assign(self, env, bb, s):
+        pl, rv = s["place"], s["rv"]
+        if pl["p"]:
+            return
+        l, k, val = pl["l"], rv["k"], None
+        if k == "use":
+            val = self._val(env, rv["a"]) if (rv["a"]["k"] == "const" or self.allowed(bb) or not any(e["k"] == "index" for e in rv["a"]["place"]["p"])) else None
+            if val is None and self.wide and self.b.local_ty(l) == "char" and rv["a"]["k"] != "const" and self._is_new_char(rv["a"]):
+                val = "NC"       # the new cell's character: wider than one column, hence not below U+1100
+        elif k in ("ref", "rawptr"):
+            val = self._place_val(env, rv["place"]) if (self.allowed(bb) or not any(e["k"] == "index" for e in rv["place"]["p"])) else None
+            if val not in ("M", "OM"):
+                val = None
+        elif k == "agg" and rv.get("ak") == "adt" and rv.get("adt") == "std::result::Result":
+            val = "OKR" if rv.get("variant") == "Ok" else "ERRR"
+        elif k == "discr":
+            v = self._place_val(env, rv["place"])
+            if v in ("OKR", "CONT"):
+                val = ("c", 0)
+            elif v in ("ERRR", "BRK"):
+                val = ("c", 1)
+            elif v == "OM":
+                val = ("c", 1)
+            elif v == "M" and self.mark is not None:
+                val = ("c", self.mark_idx[self.mark])
+            elif self.wide and rv.get("of") == "render::CellKind" and self._is_new_kind(rv["place"]):
+                val = ("c", 0)
+        elif k == "un" and rv["op"] == "Not":
+            v = self._val(env, rv["a"])
+            if isinstance(v, tuple) and self.b.local_ty(l) == "bool":
+                val = ("c", 0 if v[1] else 1)
+        elif k == "bin":
+            x, y = self._val(env, rv["a"]), self._val(env, rv["b"])
+            op = rv["op"]
+            if isinstance(x, tuple) and isinstance(y, tuple) and op in ("Eq", "Ne", "Lt", "Le", "Gt", "Ge"):
+                val = ("c", int({"Eq": x[1] == y[1], "Ne": x[1] != y[1], "Lt": x[1] < y[1], "Le": x[1] <= y[1], "Gt": x[1] > y[1], "Ge": x[1] >= y[1]}[op]))
+            elif "NC" in (x, y) and op in ("Eq", "Ne"):
+                o = y if x == "NC" else x
+                if isinstance(o, tuple) and o[1] < 0x1100:
+                    val = ("c", 0 if op == "Eq" else 1)
+            elif "W" in (x, y) and op in ("Eq", "Ne", "Lt", "Le", "Gt", "Ge"):
+                # W > 1
+                w_first = x == "W"
+                o = y if w_first else x
+                if isinstance(o, tuple):
+                    n, opn = o[1], op if w_first else {"Lt": "Gt", "Le": "Ge", "Gt": "Lt", "Ge": "Le"}.get(op, op)
+                    r = None
+                    if opn == "Eq" and n <= 1:
+                        r = 0
+                    elif opn == "Ne" and n <= 1:
+                        r = 1
+                    elif opn == "Lt" and n <= 2:
+                        r = 0
+                    elif opn == "Le" and n <= 1:
+                        r = 0
+                    elif opn == "Gt" and n <= 1:
+                        r = 1
+                    elif opn == "Ge" and n <= 2:
+                        r = 1
+                    if r is not None:
+                        val = ("c", r)
+        elif k == "cast":
+            v = self._val(env, rv["a"])
+            if v == "W" or isinstance(v, tuple):
+                val = v
+        if val is None:
+            env.pop(l, None)
+        else:
+            env[l] = val
+
+    def _is_new_kind(self, place):
+        key = (place["l"], json.dumps(place["p"], sort_keys=True))
+        if key not in self._idx_cache:
+            e = place_expr(self.b, place)
+            self._idx_cache[key] = bool(re.search(r"\.kind$", e)) and "arg1.front" in e and "arg1.back" not in e
+        return self._idx_cache[key]
+
+    def _call(self, env, bb, t):
+        d = t["dest"]
+        if d["p"]:
+            return
+        l, val = d["l"], None
+        ty = self.b.local_ty(l) or ""
+        nm = callee_name(t) or ""
+        if call_matches(t, r"FromResidual.*::from_residual$"):
+            val = "ERRR"
+        elif call_matches(t, r"Try>?::branch$") and t["args"] and self._val(env, t["args"][0]) in ("OKR", "ERRR"):
+            val = "CONT" if self._val(env, t["args"][0]) == "OKR" else "BRK"
+        elif call_matches(t, r"PartialEq.*::(eq|ne)$") and len(t["args"]) == 2:
+            r = self._cmp(env, t)
+            if r is not None:
+                val = ("c", r if nm.endswith("::eq") else 1 - r)
+        elif self.mark is not None and self.allowed(bb) and _T_OMARK.match(ty) and (
+                (call_matches(t, r"^surface::Surface::get$|Surface>::get$|^surface::SurfaceMut::get_mut$|SurfaceMut>::get_mut$") and (arg_place(self.b, t, 0) or "").endswith(".marks"))
+                or call_matches(t, r"Iterator>?::(next|next_back)$")):
+            val = "OM"
+        elif call_matches(t, r"Option::<.*>::(copied|cloned|as_ref|as_deref|as_mut)$") and t["args"]:
+            v = self._val(env, t["args"][0])
+            val = "OM" if v == "OM" else None
+        elif call_matches(t, r"Option::<.*>::(unwrap_or|unwrap_or_default|unwrap|expect|unwrap_or_else)$") and t["args"]:
+            v = self._val(env, t["args"][0])
+            val = "M" if v == "OM" else ("W" if v == "W" else None)
+        elif call_matches(t, r"Option::<.*>::is_some$") and t["args"] and self._val(env, t["args"][0]) == "OM":
+            val = ("c", 1)
+        elif call_matches(t, r"Option::<.*>::is_none$") and t["args"] and self._val(env, t["args"][0]) == "OM":
+            val = ("c", 0)
+        elif call_matches(t, r"Clone>?::clone$") and t["args"] and self._val(env, t["args"][0]) in ("M", "OM"):
+            val = self._val(env, t["args"][0])
+        elif self.wide and call_matches(t, r"UnicodeWidthChar>?::width$") and t["args"] and self._is_new_char(t["args"][0]):
+            val = "W"
+        elif call_matches(t, r"Ord>?::max$|^std::cmp::max$") and len(t["args"]) == 2:
+            x, y = self._val(env, t["args"][0]), self._val(env, t["args"][1])
+            if "W" in (x, y) and all(v == "W" or (isinstance(v, tuple) and v[1] <= 2) for v in (x, y)):
+                val = "W"
+        if val is None:
+            env.pop(l, None)
+        else:
+            env[l] = val
+
+    def _is_new_char(self, op):
+        e = expr(self.b, op)
+        return bool(re.search(r"\.kind@Char\.0$", e)) and "arg1.front" in e and "arg1.back" not in e
+
+    # -- walk ----------------------------------------------------------------------------------------------
+    def _succ(self, env, bb):
+        t = self.b.blocks[bb]["term"]
+        succ = self.b.succs(bb)
+        if t["k"] == "switch":
+            v = self._val(env, t["d"])
+            if isinstance(v, tuple):
+                sv = str(v[1])
+                succ = [t["targets"][t["vals"].index(sv)]] if sv in t["vals"] else [t["otherwise"]]
+            elif v == "W":
+                succ = [tg for sv, tg in zip(t["vals"], t["targets"]) if int(sv) > 1] + [t["otherwise"]]
+            elif v == "NC" or (v is None and self.wide and t.get("dty") == "char" and self._is_new_char(t["d"])):
+                succ = [tg for sv, tg in zip(t["vals"], t["targets"]) if int(sv) >= 0x1100] + [t["otherwise"]]
+        return succ
+
+    def _step(self, env, bb):
+        blk = self.b.blocks[bb]
+        for s in blk["stmts"]:
+            if s["k"] == "assign":
+                self._assign(env, bb, s)
+        t = blk["term"]
+        succ = self._succ(env, bb)
+        if t["k"] == "call":
+            self._call(env, bb, t)
+        return succ
+
+    def reach(self, start, stop=(), limit=40000):
+        """{block: [environments on entry]} for the blocks reachable from `start` under the assumption; `stop` blocks are not expanded"""
+        seen, out, n = set(), {}, 0
+        self.edges = set()
+        st = [(start, tuple(sorted(self.init.items(), key=str)))]
+        while st:
+            bb, e = st.pop()
+            if (bb, e) in seen:
+                continue
+            seen.add((bb, e))
+            out.setdefault(bb, []).append(dict(e))
+            n += 1
+            if n > limit:
+                return None
+            if bb in stop and bb != start:
+                continue
+            env = dict(e)
+            for s2 in self._step(env, bb):
+                self.edges.add((bb, s2))
+                st.append((s2, tuple(sorted(env.items(), key=str))))
+        return out
+
+    def escapes(self, start, through, head=None, loop_body=None, removed=(), env=None):
+        """Walk from `start` (environment `env`) under the assumption without expanding the `through` blocks.  Returns the ways the iteration can
+        end without having passed one of them: ('again', bb) the walk gets back to the loop head, ('leaves', bb) it leaves `loop_body`,
+        ('returns', bb); blocks in `removed` (error continuations) are not expanded either.  None when the enumeration gave up."""
+        saved = self.init
+        if env is not None:
+            self.init = dict(env)
+        try:
+            fr = self.reach(start, stop=set(through) | set(removed) | ({head} if head is not None else set()))
+        finally:
+            self.init = saved
+        if fr is None:
+            return None
+        out = []
+        for (a, b_) in self.edges:
+            if b_ == head:
+                out.append(("again", a))
+            elif loop_body is not None and b_ not in loop_body and b_ not in removed and b_ not in through:
+                out.append(("leaves", b_))
+        for bb in fr:
+            if bb not in through and bb not in removed and self.b.blocks[bb]["term"]["k"] == "return":
+                out.append(("returns", bb))
+        return sorted(set(out))
+
+    def thread(self, start, env):
+        """the first block from `start` that does something other than evaluating tests: follows gotos, decided branches, bounds checks and
+        side-effect free test calls (comparisons, reads of the surfaces); stops at a store through a reference/field, any other call, an undecided
+        branch or a return"""
+        env, bb, seen = dict(env), start, set()
+        while bb not in seen:
+            seen.add(bb)
+            blk = self.b.blocks[bb]
+            if any(s["k"] == "assign" and s["place"]["p"] for s in blk["stmts"]):
+                return bb
+            t = blk["term"]
+            if t["k"] == "call" and not call_matches(t, _PURE_TESTS):
+                return bb
+            succ = self._step(env, bb)
+            if t["k"] in ("return", "unreachable") or len(succ) != 1:
+                return bb
+            bb = succ[0]
+        return bb
+
+
+def _erase_commands(prog, body):
+    """ImageErase commands built in `body` or in a closure handed to an iterator adaptor (`iter.try_for_each(|item| ..)`):
+    (block of `body` where it happens, statement, canonical term in `body`'s vocabulary - a closure's item parameter reads as next(<receiver>))"""
+    out = [(bb, s_, expr(body, {"k": "copy", "place": s_["place"]})) for bb, si, s_ in body.assigns()
+           if s_["rv"]["k"] == "agg" and s_["rv"].get("variant") == "ImageErase"]
+    for cb in prog.closures_of(body):
+        inner = [(bb, s_) for bb, si, s_ in cb.assigns() if s_["rv"]["k"] == "agg" and s_["rv"].get("variant") == "ImageErase"]
+        if not inner:
+            continue
+        site = None
+        for bb, t in body.calls():
+            for k, a in enumerate(t["args"]):
+                if k > 0 and re.search(r"closure:%s\[" % re.escape(cb.path.split("::")[-1]), expr(body, a)) and call_matches(t, r"Iterator>?::(try_for_each|for_each|try_fold|fold|all|any)$"):
+                    site = (bb, t, k)
+        up = {}
+        for i, si, s in body.assigns():
+            rv = s["rv"]
+            if rv["k"] == "agg" and rv["ak"] == "closure" and rv["def"] == cb.path:
+                for k, f in enumerate(rv["fields"]):
+                    up["arg1.%d" % k] = expr(body, f)
+        for bb, s_ in inner:
+            e = expr(cb, {"k": "copy", "place": s_["place"]})
+            if site is None:
+                out.append((0, s_, "closure:" + e))
+                continue
+            item = "arg%d" % (cb.arg_count)          # the item is the closure's last parameter (fold/try_fold: after the accumulator)
+            it = "Iterator::next(IntoIterator::into_iter(%s))@Some.0" % expr(body, site[1]["args"][0])
+            e = re.sub(r"\barg1\.(\d+)\b", lambda m: up.get(m.group(0), m.group(0)), e)
+            e = re.sub(r"\b%s\b" % item, lambda m: it, e)
+            out.append((site[0], s_, e))
+    return out
+
+
+def _mark_read_blocks(body):
+    """blocks that read a cell's mark: Surface::get / iterator items of type Option<&CellMark>, or an indexed read of a [CellMark] slice"""
+    cache = body.__dict__.setdefault("_c01_cache", {})
+    if "mark_reads" in cache:
+        return cache["mark_reads"]
+    out = set()
+    for bb, t in body.calls():
+        if not t["dest"]["p"] and _T_OMARK.match(body.local_ty(t["dest"]["l"]) or "") and call_matches(t, r"Surface>?::get$|SurfaceMut>?::get_mut$|Iterator>?::(next|next_back)$"):
+            out.add(bb)
+    for bb, si, s in body.assigns():
+        rv = s["rv"]
+        p = rv["a"].get("place") if rv["k"] == "use" else (rv.get("place") if rv["k"] in ("ref", "rawptr") else None)
+        if p and any(e["k"] == "index" for e in p["p"]) and _T_MARKS.match(body.local_ty(p["l"]) or ""):
+            out.add(bb)
+    cache["mark_reads"] = out
+    return out
+
+
+def _straight_after(body, cfg, call_bb, sw_bb):
+    """blocks of the condition a comparison belongs to: reachable from the comparison without passing a call that is not a pure test"""
+    key = ("_c01_straight", call_bb)
+    cache = body.__dict__.setdefault("_c01_cache", {})
+    if key in cache:
+        return cache[key]
+    seen, st = set(), [body.blocks[call_bb]["term"]["t"]]
+    while st:
+        x = st.pop()
+        if x in seen or x < 0:
+            continue
+        seen.add(x)
+        blk = body.blocks[x]
+        t = blk["term"]
+        if any(s["k"] == "assign" and s["place"]["p"] for s in blk["stmts"]):
+            continue
+        if t["k"] == "call" and not call_matches(t, _PURE_TESTS):
+            continue
+        if t["k"] in ("return", "unreachable"):
+            continue
+        st.extend(body.succs(x))
+    cache[key] = seen
+    return seen
+
+
+def _filtered_not_damaged(prog, parent, cb):
+    """closure `cb` of `parent` is handed to an iterator adaptor whose receiver went through `.filter(f)` with f false for a Damaged mark"""
+    for bb, t in parent.calls():
+        for k, a in enumerate(t["args"]):
+            if k == 0 or not re.search(r"closure:%s\[" % re.escape(cb.path.split("::")[-1]), expr(parent, a)):
+                continue
+            recv = expr(parent, t["args"][0])
+            for m in re.finditer(r"Iterator::filter\(.*?, closure:(\{closure#\d+\})\[", recv):
+                fb = prog.body(parent.path + "::" + m.group(1))
+                if fb is None or fb.arg_count < 2:
+                    continue
+                fev = CellEval(fb, prog, mark=DAMAGED, init={2: "M"})
+                fr = fev.reach(0)
+                if fr is None:
+                    continue
+                rets = []
+                for rb, envs in fr.items():
+                    if fb.blocks[rb]["term"]["k"] == "return":
+                        for env in envs:
+                            env = dict(env)
+                            fev._step(env, rb)
+                            rets.append(env.get(0))
+                if rets and all(r == ("c", 0) for r in rets):
+                    return True
+    return False
 
 
 def _inner_loop(loops, bb):
@@ -646,47 +1125,6 @@ def _err_region(cfg, body, errs):
     oks = ok_return_blocks(body)
     can_ok = cfg.reaches(oks) if oks else set()
     return {b for b in cfg.reach if b not in can_ok}
-
-
-def _path_equal_skips(cfg, body, loop_head, eq_sw, eq_t, diff_n, removed_edge):
-    """True iff, with the not-damaged edge removed, some path from the loop head takes the equal edge and
-    gets back to the loop head (or leaves the loop) without passing the changed-cell continuation."""
-    ra, rb = removed_edge
-    succ = {i: [s for s in cfg.succ[i] if not (i == ra and s == rb)] for i in range(cfg.n)}
-    start = loop_head if loop_head is not None else 0
-
-    def reach(s0, stop=()):
-        seen = set()
-        st = [s0]
-        while st:
-            x = st.pop()
-            if x in seen or x in stop:
-                continue
-            seen.add(x)
-            for y in succ[x]:
-                st.append(y)
-        return seen
-    # can we reach the eq switch at all?
-    pre = set()
-    st = [start]
-    first = True
-    while st:
-        x = st.pop()
-        if x in pre:
-            continue
-        pre.add(x)
-        for y in succ[x]:
-            if y == start:
-                continue
-            st.append(y)
-    if eq_sw not in pre:
-        return False
-    # from the equal target, reach loop head / returns avoiding diff_n
-    post = reach(eq_t, stop={diff_n})
-    exits = set(cfg.returns)
-    if loop_head is not None:
-        exits.add(loop_head)
-    return bool(post & exits) and eq_t != diff_n
 
 
 def _guarding_kind_switch(body, cfg, bb):
